@@ -3,57 +3,10 @@
 import Winter.Drv.Util
 import Winter.Model.Field
 import Winter.Model.Fri
+import Winter.Model.FriFields
 
 namespace Drv.Fri
 open Model Model.Fri
-
-/-- the FRI model's operations over a base field, on raw words, exactly as the Rust code performs them -/
-def baseOps (I : FieldImpl) : FOps Nat where
-  zero := I.new 0
-  one := I.new 1
-  add := I.add
-  sub := I.sub
-  mul := I.mul
-  inv := fun x => match I.inv x with
-    | .done r => r
-    | .out => I.new 0
-  beq := I.eq
-  ofNat := I.new
-  root := fun k => match I.rootOfUnity k with
-    | some r => r
-    | none => I.new 0
-  rootOk := fun k => k != 0 && decide (k ≤ I.twoAdicity)
-  offset := I.new I.generator
-
-/-- `QuadExtension<f64::BaseElement>` (x² − x + 2) on pairs of raw words:
-    `impl ExtensibleField<2> for f64::BaseElement` and `QuadExtension::inv` -/
-def quad64Ops : FOps (Nat × Nat) :=
-  let I := F64.impl
-  let mul := fun (a b : Nat × Nat) =>
-    let a0b0 := I.mul a.1 b.1
-    (I.sub a0b0 (I.double (I.mul a.2 b.2)), I.sub (I.mul (I.add a.1 a.2) (I.add b.1 b.2)) a0b0)
-  let binv := fun x => match I.inv x with
-    | .done r => r
-    | .out => I.new 0
-  { zero := (I.new 0, I.new 0)
-    one := (I.new 1, I.new 0)
-    add := fun a b => (I.add a.1 b.1, I.add a.2 b.2)
-    sub := fun a b => (I.sub a.1 b.1, I.sub a.2 b.2)
-    mul := mul
-    inv := fun x =>
-      if I.eq x.1 (I.new 0) && I.eq x.2 (I.new 0) then x
-      else
-        let num := (I.add x.1 x.2, I.neg x.2)
-        let norm := mul x num
-        let d := binv norm.1
-        (I.mul num.1 d, I.mul num.2 d)
-    beq := fun a b => I.eq a.1 b.1 && I.eq a.2 b.2
-    ofNat := fun n => (I.new n, I.new 0)
-    root := fun k => match I.rootOfUnity k with
-      | some r => (r, I.new 0)
-      | none => (I.new 0, I.new 0)
-    rootOk := fun k => k != 0 && decide (k ≤ I.twoAdicity)
-    offset := (I.new I.generator, I.new 0) }
 
 /-- a field of the protocol: operations, parser and printer of one element -/
 structure Fld (α : Type) where
